@@ -50,16 +50,26 @@ pub async fn on_did_rename_files_handler(
     if !all_renames.is_empty() {
         drop(analysis);
         // 更新
+        // lock order: analysis before workspace_manager, as everywhere else
         let mut analysis = context.analysis().write().await;
+        let workspace_manager = context.workspace_manager().read().await;
         let encoding = &analysis.get_emmyrc().workspace.encoding;
         for rename in all_renames.iter() {
-            analysis.remove_file_by_uri(&rename.old_uri);
+            // a document that is open in the editor keeps its editor text, as in the
+            // watched-files handler; didClose / didOpen of the editor take care of it
+            if !workspace_manager.is_open_file(&rename.old_uri) {
+                analysis.remove_file_by_uri(&rename.old_uri);
+            }
+            if workspace_manager.is_open_file(&rename.new_uri) {
+                continue;
+            }
             if let Some(new_path) = uri_to_file_path(&rename.new_uri)
                 && let Some(text) = read_file_with_encoding(&new_path, encoding)
             {
                 analysis.update_file_by_uri(&rename.new_uri, Some(text));
             }
         }
+        drop(workspace_manager);
         drop(analysis);
 
         let analysis = context.analysis().read().await;
